@@ -160,6 +160,50 @@ func (fr *Frame) modelExternal(callee *ssa.Function, full string, c *ssa.CallCom
 		}
 		vc.storeAddr(st, a, Val{Typ: a.Typ, Ts: args[1].Ts})
 		return Val{}, pc, true
+	case full == "sort.Slice" || full == "sort.SliceStable":
+		// sort.Slice(x, less) permutes the elements of x in place. Model for slices of pointers: nothing outside the
+		// slice's window changes, and if no element of the window was nil before, none is afterwards (a consequence
+		// of "permutation" that needs no exists-quantifier; the full forall-exists form made every later query slow).
+		mi, ok := c.Args[0].(*ssa.MakeInterface)
+		if !ok {
+			return Val{}, pc, false
+		}
+		sl, ok := mi.X.Type().Underlying().(*types.Slice)
+		if !ok {
+			return Val{}, pc, false
+		}
+		if _, isPtr := sl.Elem().Underlying().(*types.Pointer); !isPtr {
+			return Val{}, pc, false
+		}
+		vc.UsedAssumed["sort.Slice permutes the slice: nil-freeness is preserved (built-in model)"] = true
+		x := fr.get(mi.X)
+		// the comparison closure runs: its (read-mostly) effects
+		for _, a := range c.Args {
+			if mc, ok := a.(*ssa.MakeClosure); ok {
+				fr.havocCaptured(&ssa.CallCommon{Value: mc}, st)
+				vc.havocClasses(st, vc.E.ModSet(mc.Fn.(*ssa.Function)))
+			}
+		}
+		cl := vc.classSlice(sl.Elem(), "")
+		srt := SortArr(SortRef, SortArr(SortBV(64), SortRef))
+		h := vc.heapGet(st, cl, srt)
+		oldArr := Sel(h, x.Ts[0])
+		na := vc.fresh("sorted", SortArr(SortBV(64), SortRef))
+		off, ln := x.Ts[1], x.Ts[2]
+		inI := And(app("bvsle", BV(0, 64), "i"), app("bvslt", "i", ln))
+		at := func(arr T) T { return Sel(arr, bvAdd(off, "i")) }
+		noNil := func(arr T, pat bool) T {
+			body := Imp(inI, Not(Eq(at(arr), BV(0, 64))))
+			if pat {
+				return "(forall ((i (_ BitVec 64))) (! " + body + " :pattern (" + at(arr) + ")))"
+			}
+			return "(forall ((i (_ BitVec 64))) " + body + ")"
+		}
+		vc.assume(pc, Imp(noNil(oldArr, false), noNil(na, true)))
+		outside := Not(app("bvult", app("bvsub", "k", off), ln))
+		vc.assume(pc, "(forall ((k (_ BitVec 64))) (! "+Imp(outside, Eq(Sel(na, "k"), Sel(oldArr, "k")))+" :pattern ((select "+na+" k))))")
+		vc.heapSet(st, cl, srt, Sto(h, x.Ts[0], na))
+		return Val{}, pc, true
 	case full == "bytes.Equal":
 		// equality of lengths is implied; contents compared abstractly
 		r := vc.fresh("bytes_eq", SortBool)
